@@ -351,7 +351,9 @@ class Consumer(object):
         def _handle_shutdown_commit_success(result):
             """Handle the result of the commit attempted by shutdown"""
             self._shutdown_d, d = None, self._shutdown_d
-            if not self._stopping:  # stop() itself may have cancelled the processor
+            # stop() itself may have cancelled the processor, or have been
+            # called (by the application) while we were waiting for it
+            if not self._stopping and self._start_d is not None:
                 self.stop()
             self._shuttingdown = False  # Shutdown complete
             d.callback(self._last_processed_offset)
@@ -364,7 +366,9 @@ class Consumer(object):
                 return
 
             self._shutdown_d, d = None, self._shutdown_d
-            if not self._stopping:  # stop() itself may have cancelled the commit
+            # stop() itself may have cancelled the commit, or have been called
+            # (by the application) while we were waiting
+            if not self._stopping and self._start_d is not None:
                 self.stop()
             self._shuttingdown = False  # Shutdown complete
             d.errback(failure)
@@ -374,9 +378,10 @@ class Consumer(object):
             if not self.consumer_group:  # No consumer group, no committing
                 return _handle_shutdown_commit_success(None)
 
-            if self._stopping:
+            if self._stopping or self._start_d is None:
                 # stop() cancelled what we were waiting for (the processor, or
-                # the commit in flight) and is stopping the consumer itself:
+                # the commit in flight) and is stopping the consumer itself - or
+                # has stopped it while we were waiting:
                 # nothing more is committed, the shutdown did not complete
                 if not isinstance(result, Failure):
                     result = Failure(CancelledError())
